@@ -1892,6 +1892,14 @@ impl Compiler {
                         if result.register.is_some() {
                             imported.push(import_register);
                         }
+
+                        // A string import only binds a value via `as`, should it be exported?
+                        if let Some(name) = maybe_as
+                            && self.settings.export_top_level_ids
+                            && self.frame_stack.len() == 1
+                        {
+                            self.compile_value_export(name, import_register)?;
+                        }
                     }
                     unexpected => {
                         return self.error(ErrorKind::UnexpectedNode {
@@ -1964,6 +1972,14 @@ impl Compiler {
 
                             if result.register.is_some() {
                                 imported.push(import_register);
+                            }
+
+                            // A string item only binds a value via `as`, should it be exported?
+                            if let Some(name) = maybe_as
+                                && self.settings.export_top_level_ids
+                                && self.frame_stack.len() == 1
+                            {
+                                self.compile_value_export(name, import_register)?;
                             }
                         }
                         unexpected => {
